@@ -82,7 +82,7 @@ type walker struct {
 	env     map[*ast.Object]string
 	params  map[*ast.Object]string
 	vnames  map[*ast.Object]string
-	byName  map[string]string // free identifiers bound by the caller of a helper (parameter name -> text)
+	byName  map[string]string      // free identifiers bound by the caller of a helper (parameter name -> text)
 	rangeIx map[*ast.Object]string // key variable of `for i := range X` -> canonical X
 	tr      *Trace
 	path    []Cond
